@@ -136,6 +136,8 @@ pub fn create_raw_dict_from_source<R: io::Read, W: io::Write>(
         source
             .read_to_end(&mut buf)
             .expect("Could not read from source");
+        // `source_size` is only an estimate: never write more than was asked for
+        buf.truncate(dict_size);
         output.write_all(&buf).expect("Could not write to output");
         return;
     }
@@ -192,6 +194,15 @@ pub fn create_raw_dict_from_source<R: io::Read, W: io::Write>(
         "create_dict: {epoch_counter} epochs written, writing {} segments",
         pool.len()
     );
+    // Keep only as many of the best segments as fit into the requested dictionary size:
+    // the heap hands out the lowest scoring segment first
+    let mut total_size: usize = pool.iter().map(|segment| segment.0.raw.len()).sum();
+    while total_size > dict_size {
+        match pool.pop() {
+            Some(segment) => total_size -= segment.0.raw.len(),
+            None => break,
+        }
+    }
     // Write the dictionary with the highest scoring segment last because
     // closer items can be represented with a smaller offset
     while let Some(segment) = pool.pop() {
